@@ -32,6 +32,22 @@ Theorem hooks_are_expected_from_scratch :
 Proof. intros npool ops. apply hooks_are_expected_lemma. apply inv_init. Qed.
 Print Assumptions hooks_are_expected_from_scratch.
 
+(* The whole property law (all 7 clauses of Law.v: no missing call, no call for an unreachable
+   object, no double call, events identify the change, quiet links silent, no mutation raises, no
+   call without change), recomputed from scratch from the heap, holds at every step of every
+   edge-acyclic history of the model, of any length, from the empty pool state. *)
+Theorem law_holds_on_every_acyclic_history :
+  forall npool ops, hyps (init npool) ops = true ->
+    law_hist 0%Z (fun _ _ => []) [] (run (init npool) ops) = [].
+Proof. intros npool ops H. apply (law_hist_model ops (init npool) 0%Z (inv_init npool) H). Qed.
+Print Assumptions law_holds_on_every_acyclic_history.
+
+Theorem law_holds_from_any_consistent_state :
+  forall ops st i, inv st -> hyps st ops = true ->
+    law_hist i (st_heap st) (st_regs st) (run st ops) = [].
+Proof. exact law_hist_model. Qed.
+Print Assumptions law_holds_from_any_consistent_state.
+
 (* At every step of such a history: the operation does not raise; if it is a notified change of
    slot (x, f) every key (handler, target) is called at most once, it is called iff one of its live
    expressions matches (x, f) through a notifying node in the current heap, and every event names
@@ -51,7 +67,7 @@ Proof.
   intros st o x f I Hy N Hno. pose proof (step_spec st o I Hy) as S. unfold step_ok in S.
   destruct (step st o) as [st' ob]. rewrite N in S. destruct S as [_ [_ [_ [Sp _]]]]. cbn [snd].
   destruct (ob_calls ob) as [|c cs] eqn:E; [reflexivity|exfalso].
-  destruct (proj1 (Sp (Proofs.call_key c)) (or_introl eq_refl)) as [g [Hr Hm]].
+  destruct (proj1 (Sp (call_key c)) (or_introl eq_refl)) as [g [Hr Hm]].
   rewrite (Hno _ _ Hr) in Hm. discriminate.
 Qed.
 Print Assumptions detached_never_called.
@@ -95,6 +111,19 @@ Proof.
   intros I. unfold inv in I. apply Permutation_length in I. vm_compute in I. discriminate.
 Qed.
 Print Assumptions cyclic_refuted.
+
+(* F14, second form: a list that comes to contain its own owner.  o.observe(h, kids.items.kids.items.value);
+   o.kids.append(p); o.kids[0] = o: the mutation raises NotifierNotFound in the model as in the code. *)
+Definition f14_list_history : list op :=
+  [SetCont 0 3 [] true; SetCont 1 3 [] true;
+   Observe 0 0 (G 3 true [G 6 true [G 3 true [G 6 true [G 0 true []]]]]);
+   Splice 2 6 0 0 [1]; Splice 2 6 0 1 [0]].
+Theorem cyclic_list_refuted :
+  exists ops, hyps (init 2) ops = false
+              /\ map (fun p : op * obs => ob_out (snd p)) (run (init 2) ops) = [Ok; Ok; Ok; Ok; Raise NotifierNotFound]
+              /\ law_hist 0%Z (fun _ _ => []) [] (run (init 2) ops) = [406%Z].
+Proof. exists f14_list_history. vm_compute. repeat split; reflexivity. Qed.
+Print Assumptions cyclic_list_refuted.
 
 (* Non-vacuity: a history over a DAG with a list holding the same object twice, an equal list
    re-assigned, a default materialised late and a quiet link meets the hypotheses, and calls happen. *)
